@@ -143,6 +143,8 @@ class Fraction:
         ):
             # Not something which can be compared to a fraction (i.e.: None, str).
             return NotImplemented
+        if isinstance(other, float) and other != other:
+            return False  # NaN is equal to nothing (and cannot be turned into a fraction).
         return self.__old_cmp__(other) == 0
 
     def __lt__(self, other: Any) -> bool:
